@@ -46,16 +46,22 @@ func txScenarios() []txCase {
 	}
 }
 
-func txStream(rep *lib.Report, seed int64) {
+func txStream(rep *lib.Report, seed int64, write bool) {
+	var items []string
 	for i, tc := range txScenarios() {
 		for _, asBytes := range []bool{false, true} {
 			tc.Bytes = asBytes
-			runTxCase(rep, seed*104729+int64(i), tc)
+			if it := runTxCase(rep, seed*104729+int64(i), tc); it != "" {
+				items = append(items, it)
+			}
 		}
+	}
+	if write {
+		lib.WriteCases("Cases_C12_tx.v", []string{"model.M_Abi", "model.M_CkDesc", "model.M_Confirm", "model.M_ConfirmCorr"}, "tx_case", items, "tx_mismatch")
 	}
 }
 
-func runTxCase(rep *lib.Report, seed int64, tc txCase) {
+func runTxCase(rep *lib.Report, seed int64, tc txCase) string {
 	c := lib.NewChain(seed, 1, nil)
 	x := c.X(tc.Chain)
 	x.SetupOracles([]int64{10000, 10000, 10000})
@@ -73,7 +79,7 @@ func runTxCase(rep *lib.Report, seed int64, tc txCase) {
 	set := pre.find(KSet, "", 1)
 	if set == nil || set.obj == nil {
 		rep.Fail(lib.Failure{Kind: "harness", What: "no oracle set after the first end blocker", Sig: "C12/tx-setup"})
-		return
+		return ""
 	}
 	inner := x.Oracles[tc.Inner]
 	sig := ownSign(tc.Chain == "tron", keccak(Encode(set.obj, pre.gid, true)), inner.External)
@@ -98,23 +104,51 @@ func runTxCase(rep *lib.Report, seed int64, tc txCase) {
 		rep.Fail(lib.Failure{Kind: "monitor", Sig: "C12/tx-accept-store", What: fmt.Sprintf("tx %s (%s): accepted=%v but confirm stored=%v", tc.Name, path, accepted, stored), Replay: tc})
 	}
 	if stored && signer.Acc().String() != pre.oracles[orcAddr].BridgerAddress {
-		rep.Fail(lib.Failure{Kind: "monitor", Sig: "C12/signer-not-bridger/MsgConfirm-tx",
-			What: fmt.Sprintf("a transaction whose only required signer is %s (an account that is not oracle %d's bridger) stored a confirm for oracle %d, whose bridger %s did not sign [%s, %s path]",
-				strings.Join(required, ","), tc.Inner, tc.Inner, pre.oracles[orcAddr].BridgerAddress, tc.Name, path), Replay: tc})
+		what := fmt.Sprintf("a transaction whose only required signer is %s (an account that is not oracle %d's bridger) stored a confirm for oracle %d, whose bridger %s did not sign [%s, %s path]",
+			strings.Join(required, ","), tc.Inner, tc.Inner, pre.oracles[orcAddr].BridgerAddress, tc.Name, path)
+		if tc.Bytes {
+			// reachable through a real transaction: the property fails
+			rep.Fail(lib.Failure{Kind: "monitor", Sig: "C12/signer-not-bridger/tx-bytes", What: what, Replay: tc})
+		} else {
+			// only the in-memory message object gets this far: on this tree a MsgConfirm decoded from bytes has no
+			// wrapped message (no UnpackInterfaces) and is refused, so this is latent, not a failure
+			addNote(rep, "LATENT (not reachable through a transaction on this tree, no alarm): MsgConfirm's required signer is the wrapper's bridger_address, ConfirmHandler checks only the wrapped confirm's; "+
+				"handed to the ante handler + message router as a message object, a MsgConfirm signed by an outsider stores an oracle's confirm. A MsgConfirm decoded from transaction bytes carries no wrapped message "+
+				"(MsgConfirm has no UnpackInterfaces) and is always refused. The byte path is monitored: adding UnpackInterfaces without comparing the two bridger addresses would be reported (theorems C12_tree_wrapper_safe, C12_wrapped_signer_latent)")
+		}
 	}
 	if tc.Bytes && tc.Wrapped && tc.Signer == tc.Wrapper && tc.Wrapper == tc.Inner && !accepted {
-		note := "observation (liveness, outside C12): an honest MsgConfirm transaction delivered as encoded bytes is rejected ('" + short(err) +
-			"'): MsgConfirm has no UnpackInterfaces, so the wrapped Any has no cached value after decoding; on this tree the wrapper only works on the message-object path"
-		for _, n := range rep.Notes {
-			if n == note {
-				return
-			}
+		addNote(rep, "observation (liveness, outside C12): an honest MsgConfirm transaction delivered in a real block is rejected ('"+short(err)+
+			"'): MsgConfirm has no UnpackInterfaces, so the wrapped Any has no cached value after decoding; on this tree the wrapper cannot be used at all")
+	}
+	if tc.Name == "direct-honest" && !accepted {
+		rep.Fail(lib.Failure{Kind: "harness", Sig: "C12/tx-honest-rejected", What: "an honest directly sent MsgOracleSetConfirm transaction was rejected: " + fmt.Sprint(err)})
+	}
+	// Coq case: state before, the transaction, who signed, what recover returned, verdict, confirm stores after
+	m := confirmMsg{kind: KSet, nonce: 1, bridger: confirm.BridgerAddress, external: confirm.ExternalAddress, sigHex: confirm.Signature}
+	preimage, _ := hashedBytes(set.obj, pre.gid, mustCP(tc.Chain, set.real, pre.gid))
+	res := "None"
+	if a, ok := ownRecover(tc.Chain, keccak(preimage), ownNormalise(sig)); ok {
+		res = fmt.Sprintf("(Some %d)", h.id64(a))
+	}
+	recs := []string{fmt.Sprintf("(%s, %s, %s)", bytesL(preimage), bytesL(ownNormalise(sig)), res)}
+	return fmt.Sprintf("mk_tx_case %s %s %d %s %d %s %s %s %s", h.coqState(pre), lib.Bool(tc.Wrapped), h.id64(acct(tc.Wrapper).Acc().String()), h.coqMsg(m),
+		h.id64(signer.Acc().String()), lib.Bool(tc.Bytes), lib.List(recs), lib.Bool(accepted), lib.List(h.coqConfs(post)))
+}
+
+func mustCP(chain string, real interface{}, gid string) []byte {
+	cp, err := RealCheckpoint(chain, real, gid)
+	lib.Must(err)
+	return cp
+}
+
+func addNote(rep *lib.Report, note string) {
+	for _, n := range rep.Notes {
+		if n == note {
+			return
 		}
-		rep.Notes = append(rep.Notes, note)
 	}
-	if os := fmt.Sprint(err); tc.Name == "direct-honest" && !accepted {
-		rep.Fail(lib.Failure{Kind: "harness", Sig: "C12/tx-honest-rejected", What: "an honest directly sent MsgOracleSetConfirm transaction was rejected: " + os})
-	}
+	rep.Notes = append(rep.Notes, note)
 }
 
 func short(err error) string {
